@@ -1430,9 +1430,30 @@ struct StrDriver {
         }
         S& v            = *obj[a];
         size_t const sz = model[a].size();
-        int const var   = static_cast<int>(st.k[2] % 13);
+        int const var   = static_cast<int>(st.k[2] % 18);
         Char sink       = Char(0);
         S const& cv     = v;
+        if (var >= 13) {
+            // compare with a start position beyond size() - in this string (pos) or in the other one (pos2):
+            // std::basic_string throws out_of_range, here the precondition of the underlying substr
+            size_t const pos = static_cast<size_t>(beyond(sz + 1, st.flt));
+            ExactBuf<Char> txt(2);
+            txt.p[0] = Char('x');
+            txt.p[1] = Char(0);
+            ctx.log.kv("pos", static_cast<long long>(pos));
+            int r = 0;
+            call(a, true, false, [&] {
+                switch (var) {
+                case 13: r = cv.compare(pos, 1, cv); break;
+                case 14: r = cv.compare(pos, 1, cv, 0, 1); break;
+                case 15: r = cv.compare(0, 0, cv, pos, 1); break;
+                case 16: r = cv.compare(pos, 1, txt.p); break;
+                default: r = cv.compare(pos, 1, txt.p, 1); break;
+                }
+            });
+            (void)r;
+            return;
+        }
         if (var == 12) {
             // replace(pos, count, str, pos2, count2) with pos2 beyond str.size()
             size_t const pos2 = static_cast<size_t>(beyond(sz + 1, st.flt));
